@@ -273,7 +273,7 @@ func (e *c09Env) end() {
 	}
 }
 
-var c09Targets = []string{"f", "missing", "d", "lf", "ld", "d/x"}
+var c09Targets = []string{"f", "missing", "d", "lf", "ld", "d/x", "nodir/sub/file"} // the last one: missing below missing directories
 
 func c09Table(e *c09Env) {
 	u := e.u
